@@ -212,10 +212,10 @@ func isIntKeyMap(m map[string]any) bool {
 
 // MutOpts tunes the catalogue.
 type MutOpts struct {
-	Rekeys    []string // replacement keys tried on integer-keyed maps
-	Structural bool    // include delete/null/duplicate/swap/truncate
-	Values     bool    // include value alterations of leaves
-	Donor      any     // optional second tree: exchange the subtree at the same path
+	Rekeys     []string // replacement keys tried on integer-keyed maps
+	Structural bool     // include delete/null/duplicate/swap/truncate
+	Values     bool     // include value alterations of leaves
+	Donor      any      // optional second tree: exchange the subtree at the same path
 }
 
 // Mutations enumerates the tamper-field catalogue over a tree, in deterministic order.
